@@ -27,7 +27,7 @@ RULE = ("cases: real HyperbandScheduler(type in promotion, pasha, cost_promotion
         "systems, 1-4 brackets shared or per-bracket, both modes, max_resource_attr on/off, checkpointing on/off, "
         "1-6 concurrent scripted workers, dyadic metrics and costs (plus tie / constant streams), failures; "
         "distinct by sha256 of the spec; non-trivial iff at least one promotion (resume) happened")
-TYPES = ["promotion", "promotion", "pasha", "cost_promotion", "rush_promotion"]
+TYPES = ["promotion", "promotion", "pasha", "pasha", "cost_promotion", "rush_promotion"]
 
 
 def gen_cases(rng, tier):
@@ -51,7 +51,8 @@ def gen_cases(rng, tier):
             "seed": rng.randrange(10 ** 9),
             "n_workers": rng.randint(1, 6),
             "max_events": rng.choice([40, 80, 160]) if tier == "quick" else rng.choice([80, 250, 600]),
-            "style": rng.choice(["general"] * 5 + ["ties", "const", "near4", "near6", "near8", "near10", "tiny", "huge", "neg"]),
+            "style": (rng.choice(["noisy", "noisy", "general", "ties"]) if typ == "pasha" else
+                      rng.choice(["general"] * 5 + ["ties", "const", "near4", "near6", "near8", "near10", "tiny", "huge", "neg"])),
             "checkpointing": rng.random() < 0.6,
             "p_fail": rng.choice([0, 0, 0.03]),
         }
@@ -221,7 +222,10 @@ def run_impl(spec):
     promos = sum(1 for e in t["events"] if e["ev"] == "resume")
     hist = {"promotions": promos, "type:" + spec["ctor"]["type"]: 1, "mode:" + spec["ctor"]["mode"]: 1,
             "results": sum(1 for e in t["events"] if e["ev"] == "result"),
-            "errors_raised": sum(1 for e in t["events"] if e["ev"].endswith("error") and "err" in e)}
+            "errors_raised": sum(1 for e in t["events"] if e["ev"].endswith("error") and "err" in e),
+            "pasha_cap_increases": sum(1 for e in t["events"] if e["ev"] == "result" and e["pasha_after"] != e["pasha_before"]),
+            "pasha_cap_reached_max_t": sum(1 for e in t["events"] if e["ev"] == "result" and e["pasha_after"] != e["pasha_before"]
+                                            and any(x[1] == spec["ctor"]["max_t"] for x in e["pasha_after"]))}
     return {"lines": t["lines"], "monitor": mon, "meta": {"hist": hist, "promos": promos}}
 
 
